@@ -26,3 +26,15 @@ add("C01", OTHER, "SSA -> group-mode symbolic execution (free abelian group with
     "For all scalars in [0,l) and abstract points: each of the five routines returns sum k_j*P_j with coefficient 0 for the prior receiver, from a zero-value/identity/arbitrary/aliased receiver, n<=2 (quick) / n<=4 (thorough) terms, n=0 gives the identity; tables are built by executing the real constructors; 64-digit loops unrolled, 256-step NAF loops merged per iteration.",
     "Trusted: as C02 plus the linear-arithmetic reading of 'represents k*P'; n above the bound outside.",
     "DESIGN.md 5/C01")
+add("C06", OTHER, "SSA -> ring-mode symbolic execution; Element.Equal as congruence atoms; z3 decides the boolean structure and the cross-product identities",
+    "For symbolic valid points: Equal tests exactly X1Z2-X2Z1 and Y1Z2-Y2Z1 for zero and returns exactly 1 iff both vanish, else 0; self-comparison is 1; operands unwritten. Underlying Element.Equal (reduce, Bytes, ConstantTimeCompare from stdlib SSA) re-discharged.",
+    "Trusted: GF(p) has no zero divisors (Z != 0), go/ssa, executor, z3.", "DESIGN.md 5/C06")
+add("C13", OTHER, "SSA -> ring-mode symbolic execution of isOnCurve/SetExtendedCoordinates with congruence atoms; z3 decides accept <=> (Z != 0 and both equations) on every path",
+    "All coordinate quadruples: every accepting path implies Z != 0, curve equation and XY = ZT; every rejecting path has one of them false; on accept the receiver is exactly (X,Y,Z,T); export returns the four coordinates in fresh cells.",
+    "Trusted: Element.Equal <=> congruence (C10 contract, re-discharged), go/ssa, executor, z3.", "DESIGN.md 5/C13")
+add("C05", OTHER, "SSA -> ring-mode symbolic execution with inverse/encoding/parity symbols; certificates for y*Z = Y, x*Z = X; bit-vector check of the sign-bit merge",
+    "For every valid point in any representation: the encoded element is Y/Z, the sign bit is the parity of reduced X/Z, the 32 bytes are the canonical encoding with only bit 255 altered; buffer fresh, point unwritten. Canonical field encoding re-discharged (reduce, bytes).",
+    "Trusted: Fermat inverse, composition with C04 for the round trip.", "DESIGN.md 5/C05")
+add("C17", OTHER, "SSA -> ring-mode symbolic execution with two inverse symbols; certificates for u*(1-y) = 1+y and the y=1 case",
+    "For every valid point: u*(1-y) = 1+y with y = Y/Z when y != 1, u = 0 when y = 1 (identity only, d != -1), u independent of X and T, output = canonical encoding of u.",
+    "The X25519-equivalence consequence is outside the claim.", "DESIGN.md 5/C17")
